@@ -19,17 +19,16 @@ func (self *Compiler) compileIfExpr(node ast.AnalyzedIfExpression) {
 	after_label := self.mangleLabel("if_after")
 	else_label := self.mangleLabel("else")
 
-	if node.ElseBlock != nil {
-		self.insert(newOneStringInstruction(Opcode_JumpIfFalse, else_label), node.Range)
-	} else {
-		self.insert(newOneStringInstruction(Opcode_JumpIfFalse, after_label), node.Range)
-	}
+	self.insert(newOneStringInstruction(Opcode_JumpIfFalse, else_label), node.Range)
 	self.compileBlock(node.ThenBlock, true)
 	self.insert(newOneStringInstruction(Opcode_Jump, after_label), node.Range)
 
+	self.insert(newOneStringInstruction(Opcode_Label, else_label), node.Range)
 	if node.ElseBlock != nil {
-		self.insert(newOneStringInstruction(Opcode_Label, else_label), node.Range)
 		self.compileBlock(*node.ElseBlock, true)
+	} else {
+		// Without an `else`, the value of the expression is `null` if the condition does not hold.
+		self.insert(newValueInstruction(Opcode_Copy_Push, *value.NewValueNull()), node.Range)
 	}
 	self.insert(newOneStringInstruction(Opcode_Label, after_label), node.Range)
 }
@@ -350,6 +349,7 @@ func (self *Compiler) compileExpr(node ast.AnalyzedExpression) {
 			}
 
 			self.insert(newOneStringInstruction(opCodeSet, name), node.Range)
+			self.insert(newValueInstruction(Opcode_Copy_Push, *value.NewValueNull()), node.Range)
 		} else {
 			self.compileExpr(node.Lhs)
 
@@ -362,6 +362,7 @@ func (self *Compiler) compileExpr(node ast.AnalyzedExpression) {
 			}
 
 			self.insert(newPrimitiveInstruction(Opcode_Assign), node.Range)
+			self.insert(newValueInstruction(Opcode_Copy_Push, *value.NewValueNull()), node.Range)
 		}
 	case ast.CallExpressionKind:
 		node := node.(ast.AnalyzedCallExpression)
@@ -435,6 +436,7 @@ func (self *Compiler) compileExpr(node ast.AnalyzedExpression) {
 		if node.DefaultArmAction != nil {
 			self.insert(newOneStringInstruction(Opcode_Jump, default_branch), node.Range)
 		} else {
+			self.insert(newValueInstruction(Opcode_Copy_Push, *value.NewValueNull()), node.Range)
 			self.insert(newOneStringInstruction(Opcode_Jump, after_branch), node.Range)
 		}
 
